@@ -95,3 +95,20 @@ CASES += [
     {"name": "set_data converts without a copy", "kind": "mutant", "rule": "C17-A", "edits": [
         ("quantarhei/qm/liouvillespace/rates/ratematrix.py", "        self.data = numpy.array(data, dtype=numpy.float64)\n\n\n    def set_rate", "        self.data = numpy.array(data, dtype=numpy.float64, copy=False)\n\n\n    def set_rate", 1)]},
 ]
+
+_TM17 = "quantarhei/core/time.py"
+_SH17 = "            self.data[:] = self.data[:] - self.start\n            self.start = 0.0\n"
+CASES += [
+    {"name": "start reset before it is subtracted (seeded change of round 8)", "kind": "mutant", "rule": "C17-H", "edits": [
+        (_TM17, _SH17, "            self.start = 0.0\n            self.data[:] = self.data[:] - self.start\n", 1)]},
+    {"name": "start reset before the minimum (a property reading it) is subtracted (seeded change of round 8)", "kind": "mutant", "rule": "C17-H", "edits": [
+        (_TM17, _SH17, "            self.start = 0.0\n            self.data[:] = self.data[:] - self.min\n", 1)]},
+    {"name": "points moved, description left", "kind": "mutant", "rule": "C17-H", "edits": [
+        (_TM17, _SH17, "            self.data[:] = self.data[:] - self.start\n", 1)]},
+    {"name": "description moved, points left", "kind": "mutant", "rule": "C17-H", "edits": [
+        (_TM17, _SH17, "            self.start = 0.0\n", 1)]},
+    {"name": "old start kept in a local before the reset", "kind": "twin", "edits": [
+        (_TM17, _SH17, "            s0 = self.start\n            self.start = 0.0\n            self.data[:] = self.data[:] - s0\n", 1)]},
+    {"name": "points moved in place by the first point", "kind": "twin", "edits": [
+        (_TM17, _SH17, "            self.data -= self.data[0]\n            self.start = 0.0\n", 1)]},
+]
